@@ -10,7 +10,7 @@
 (* return normally poisons its scenario (nothing after it is judged until  *)
 (* the next Reset).                                                        *)
 (***************************************************************************)
-EXTENDS AidlStore, AidlValidate, Json, IOUtils
+EXTENDS AidlStore, AidlSymbols, Json, IOUtils
 
 Rec == ndJsonDeserialize(IOEnv.TRACE)
 
@@ -126,11 +126,35 @@ TValidate(e) ==
         ELSE UNCHANGED memo13
      /\ UNCHANGED poison
 
-\* read-only queries judged elsewhere (AidlSymbols); here: they never change the store
+\* read-only queries: they never change the store, and their answers are judged with AidlSymbols
+JudgeQuery(e) ==
+  IF e.out # "ok" \/ ~Fld(e, "nodes") THEN TRUE
+  ELSE LET ns == e.nodes IN
+  CASE e.ev = "walk" ->
+         /\ J("C15", e, "walk_symbols order / coverage",
+              [k \in DOMAIN e.syms |-> e.syms[k].p] = Walk(ns, e.filter) /\ WalkCoversTree(ns))
+         /\ J("C17", e, "name / qualified name of a symbol", NamesOK(ns, e.syms))
+         /\ J("X-strings", e, "signature / details string (extension)", StringsOK(ns, e.syms))
+    [] e.ev = "filter" -> J("C15", e, "filter_symbols result", e.paths = FilterPaths(ns, e.filter, e.pred))
+    [] e.ev = "find" -> J("C15", e, "find_symbol result", e.found = FindPath(ns, e.filter, e.pred))
+    [] e.ev = "filters" -> J("C15", e, "filter_symbols result",
+                               \A k \in DOMAIN e.preds : e.paths[k] = FilterPaths(ns, e.filter, e.preds[k]))
+    [] e.ev = "finds" -> J("C15", e, "find_symbol result",
+                             \A k \in DOMAIN e.preds : e.found[k] = FindPath(ns, e.filter, e.preds[k]))
+    [] e.ev = "lookups" ->
+         J("C16", e, "find_symbol_at_line_col result",
+           \A k \in DOMAIN e.positions : e.found[k] = LookupPath(ns, e.filter, e.positions[k][1], e.positions[k][2]))
+    [] e.ev = "walktypes" -> J("C15", e, "walk_types order / coverage", e.paths = WalkTypesPaths(ns))
+    [] e.ev = "walkmethods" -> J("C15", e, "walk_methods order / coverage", e.paths = WalkMethodsPaths(ns))
+    [] e.ev = "walkargs" -> J("C15", e, "walk_args order / coverage", e.pairs = WalkArgsPairs(ns))
+    [] e.ev = "key" -> J("C17", e, "Aidl::get_key", e.key = KeyOfNodes(ns))
+    [] OTHER -> TRUE
+
 TQuery(e) == /\ (IF Has(e.i) THEN ReadOnly(e.i) ELSE store' = Put(store, e.i, Empty))
+             /\ JudgeQuery(e)
              /\ UNCHANGED <<memo12, memo13, poison>>
 
-Queries == {"walk", "filter", "find", "lookups", "walktypes", "walkmethods", "walkargs", "key", "roundtrip"}
+Queries == {"walk", "filter", "find", "finds", "filters", "lookups", "walktypes", "walkmethods", "walkargs", "key", "roundtrip"}
 
 Hit12(e) == e.ev = "validate" /\ ~poison /\ e.out = "ok" /\ Has(e.i) /\ store[e.i] \in DOMAIN memo12
 NObs(e) == IF e.ev = "validate" /\ ~poison /\ e.out = "ok" /\ Fld(e, "obs") THEN Len(e.obs) ELSE 0
